@@ -65,4 +65,4 @@ CLAIMS["C03"] = {
 NOT_APPLICABLE = {}
 
 # claim files (checks/Cxx.claim.json) written by builders are merged only after review by the coordinator
-ACCEPTED = ["C19", "C21", "C23", "C29", "C32", "C34", "C37", "C39", "C40", "C41", "C16", "C17", "C28", "C26", "C27", "C25", "C22", "C18", "C43", "C12", "C13", "C15", "C09", "C08", "C33", "C38", "C42", "C35", "C36", "C01", "C02", "C10", "C11", "C31", "C24"]
+ACCEPTED = ["C19", "C21", "C23", "C29", "C32", "C34", "C37", "C39", "C40", "C41", "C16", "C17", "C28", "C26", "C27", "C25", "C22", "C18", "C43", "C12", "C13", "C15", "C09", "C08", "C33", "C38", "C42", "C35", "C36", "C01", "C02", "C10", "C11", "C31", "C24", "C20"]
